@@ -28,6 +28,13 @@ class Ctx:
         self.coverage = {}
         self.assumptions = []
         self.notes = []
+        # replays of earlier runs of this property are stale
+        import glob
+        for f in glob.glob(os.path.join(REPLAY_DIR, prop + '-*.json')):
+            try:
+                os.unlink(f)
+            except OSError:
+                pass
 
     def rng(self, salt=''):
         h = hashlib.sha256(('%s/%s/%s' % (self.prop, self.seed, salt)).encode()).digest()
